@@ -144,15 +144,32 @@ def run(ctx):
                           "entered only with both converter residue counters at zero", 6)
     ob3 = ctx.ob("C13.3", "bypass: the pre-FIFO feeds the post-FIFO directly only under with_bypass & <bypass signal>, which is asserted only in the reset "
                           "(bypass) state; otherwise data goes pre-FIFO -> pre-converter -> DRAM FIFO -> post-converter -> post-FIFO", 3)
+    ob4 = ctx.ob("C13.4", "flushing a partial word: padding that a flush state injects to complete a DRAM word must not reach the output stream - the "
+                          "post-converter -> post-FIFO path has to be gated per sub-word while such a word drains", 1)
+    ob5 = ctx.ob("C13.5", "bounded region: base and depth (bytes) are both converted to words of the DRAM port before they reach the pointer logic, so the "
+                          "FIFO stays inside [base, base+depth)", 2)
+    ob6 = ctx.ob("C13.6", "the DMA engines the FIFO is built on: the writer accepts (address, data) atomically, the reader returns one word per accepted address "
+                          "and never has more reads outstanding than it can buffer (shared with C12.1-C12.4)", 10)
+    share(ctx, ob6, "C12", ("C12.1", "C12.2", "C12.3", "C12.4"))
     ctrl_rules(ctx, ob1)
     # ---- top level ----
     for bp in (True, False):
-        t = elab(ctx, FF, "LiteDRAMFIFO", kwargs={"data_width": Const(32), "base": Const(0), "depth": Const(1024), "write_port": pobj("write_port"), "read_port": pobj("read_port"),
+        t = elab(ctx, FF, "LiteDRAMFIFO", kwargs={"data_width": Const(32), "base": Const(256), "depth": Const(1024), "write_port": pobj("write_port"), "read_port": pobj("read_port"),
                                                  "with_bypass": Const(bp)},
                  overrides={"write_port.data_width": Const(128 if bp else 32), "read_port.data_width": Const(128 if bp else 32), "write_port.address_width": Const(24)}, hasattrs=NATIVE)
         T = TopRoles(t, ob3)
         if not T.ok:
             return
+        # the DRAM region handed to the inner FIFO: byte quantities converted to port words (both with the PORT width)
+        inner = [o for o in t.d.instances.values() if o.cls == "_LiteDRAMFIFO" and "." not in o.path][0]
+        pw = 128 if bp else 32
+        got = {k_: inner.kwargs.get(k_) for k_ in ("base", "depth")}
+        ob5.instance("with_bypass=%s region of the inner FIFO" % bp, {k_: key(v_) if v_ is not None else None for k_, v_ in got.items()})
+        for k_, bytes_ in (("base", 256), ("depth", 1024)):
+            v_ = got[k_]
+            if not (isinstance(v_, Const) and v_.v == bytes_ * 8 // pw):
+                ob5.refute("region-%s:%s" % (k_, bp), "a %d-byte %s with a %d-bit port is handed to the DRAM FIFO as %s words, expected %d: the FIFO uses DRAM outside its "
+                           "configured region (or only part of it)" % (bytes_, k_, pw, key(v_) if v_ is not None else None, bytes_ * 8 // pw), inner.loc)
         route = {k: (t.guard_lits(l, False), l) for k, l in T.pair.items()}
         ob3.instance("with_bypass=%s routing" % bp, {"%s->%s" % k: sorted(litset(v_[0])) for k, v_ in route.items()})
         direct = route.get((T.pre + ".source", T.post + ".sink"))
@@ -284,6 +301,20 @@ def run(ctx):
             if not {"~" + res["in"], "~" + res["out"]} <= g:
                 ob2.refute("bypass-with-residue:%s" % e.state, "the bypass state is entered from %s under %s without both converter residue counters (%s, %s) being "
                            "zero: a partial word is left inside a converter and later mixed into the stream" % (e.state, sorted(g), res["in"], res["out"]), e.loc)
+        # ---- C13.4: padding used to flush a partial word ----
+        pads = [l for l in t.fsm_leaves(f) if l.kind == "assign" and key(l.target) == T.prec + ".sink.valid" and is1(l.value)]
+        ob4.instance("states that push padding into the pre-converter", sorted({l.state for l in pads}))
+        for st_ in sorted({l.state for l in pads}):
+            pcl = route.get((T.postc + ".source", T.post + ".sink"))
+            gl = litset(pcl[0]) if pcl else None
+            # is the post-converter -> post-FIFO path open in that state, for every sub-word?
+            open_ = pcl is not None and gl <= {"~" + Bk} and st_ != f.reset_state
+            fed = any(l.kind == "connect" and key(l.value) == T.prec + ".source" and key(l.target) == T.postc + ".sink" for l in t.fsm_leaves(f, st_))
+            ob4.instance("state %s" % st_, {"pre-converter feeds post-converter": fed, "post-converter -> post-FIFO guard": sorted(gl) if gl is not None else None})
+            if fed and open_:
+                ob4.refute("padding-reaches-output", "state %s completes a partial DRAM word with padding (%s.sink.valid forced to 1 with no data source) and hands it to the "
+                           "post-converter, whose output stays connected to the post-FIFO under %s only: the padding sub-words leave the FIFO as data (and the residue "
+                           "count that should drop them is taken on whole words)" % (st_, T.prec, sorted(gl)), pads[0].loc)
     ctx.assume("the residue-flush states (pump / drain) and the value-dependent part of the mode switching are NOT decided; "
                "a read is issued only after its write command was accepted by the port (C12.4 + level counting accepted writes), data order then rests on C01")
 
